@@ -107,6 +107,10 @@ def walk_parts(out: str, pos: int, ops, label: str):
 def body_algebra(case, note):
     import htmltools as h
 
+    if case.get("prior_failed"):
+        from hv.history import failed_operations
+
+        failed_operations(key=case["expr"])
     e = case["expr"]
     ops = operands(e, [])
     res = evaluate(e)
@@ -163,6 +167,7 @@ def body_algebra(case, note):
         "iadd" if _has_op(e, "iadd") else "",
         "reflected" if _has_reflected(e) else "",
         "all-plain" if not any_html else "",
+        "earlier-operations-raised" if case.get("prior_failed") else "",
     )
 
 
@@ -185,7 +190,7 @@ PH_RE = re.compile(r"ZQ~(\d+)~QZ")
 
 def markup():
     long_ = st.builds(lambda s, k: ((s or "<b>&amp;</b>") * k)[:300], gen.any_text(), st.integers(10, 40)).filter(lambda s: len(s) >= 64)
-    return st.one_of(gen.any_text(), gen.hot_text(10), st.sampled_from(["<b>x</b>", "a\nb", "&amp;", "&", "</script>", '"', "<!-- c -->", "\r\n"]), long_)
+    return st.one_of(gen.any_text(), gen.hot_text(10), st.sampled_from(["<b>x</b>", "a\nb", "&amp;", "&", "</script>", '"', "<!-- c -->", "\r\n", "a\\1b", "x\\ny", "\\g<0>", "C:\\dir\\file", "\\", "$1 %s {0}"]), long_)
 
 
 def slot(kinds):
@@ -194,7 +199,7 @@ def slot(kinds):
 
 def vtree():
     plain = st.sampled_from([{"k": "text", "s": "p"}, {"k": "text", "s": ""}, {"k": "meta"}, {"k": "dep", "name": "d", "version": "1"}])
-    leaf = gen.opaque(st.one_of(slot(["html", "repr", "repr-iter"]), slot(["html", "repr"]), plain))
+    leaf = gen.opaque(st.one_of(slot(["html", "repr", "repr-iter"]), slot(["html", "repr", "dephead"]), plain))
     rawleaf = gen.opaque(st.one_of(slot(["rawtext", "rawhtml"]), slot(["rawtext", "rawhtml"]), st.sampled_from([{"k": "meta"}, {"k": "dep", "name": "d", "version": "1"}])))
     attr = st.lists(st.tuples(st.sampled_from(["class", "title", "data-x", "style"]), st.lists(markup(), min_size=1, max_size=3)).map(list), max_size=2)
 
@@ -225,18 +230,20 @@ def vtree():
 
 
 def vcase():
-    return st.fixed_dictionaries({"roots": vtree(), "indent": st.integers(0, 3), "eol": st.sampled_from(["\n", "", "\r\n"]), "prior": st.booleans()})
+    return st.fixed_dictionaries({"roots": vtree(), "indent": st.integers(0, 3), "eol": st.sampled_from(["\n", "", "\r\n"]), "prior": st.sampled_from([False, False, True, "failed"])})
 
 
 class _B:
     def __init__(self, real: bool) -> None:
         self.real = real
         self.slots: list = []
+        self.slot_kinds: list = []
         self.kinds: set = set()
 
     def val(self, m: str, kind: str) -> str:
         i = len(self.slots)
         self.slots.append(m)
+        self.slot_kinds.append(kind)
         self.kinds.add(kind)
         return m if self.real else PH % i
 
@@ -251,6 +258,9 @@ class _B:
                 return h.HTML(v)
             if r["kind"] == "repr":
                 return Repr(v, False)
+            if r["kind"] == "dephead":
+                # trusted markup that travels as the head payload of a dependency (shown by the document paths)
+                return h.HTMLDependency("slotdep%d" % (len(self.slots) - 1), "1.0", head=h.HTML(v))
             if r["kind"] == "repr-iter":
                 from hv.build import ReprIter
 
@@ -321,6 +331,9 @@ def _renders(objs, case):
                 outs.append(("save_html file", fh.read()))
         finally:
             shutil.rmtree(d, ignore_errors=True)
+    # ... and so is a text document into which the collected dependencies are inserted at a placeholder
+    deps = tl.tagify().get_dependencies()
+    outs.append(("HTMLTextDocument.render", h.HTMLTextDocument("<html><head>@@DEPS@@</head><body>b \\1 \\n</body></html>", deps=deps, deps_replace_pattern="@@DEPS@@").render()["html"]))
     if isinstance(objs[0], h.Tag):
         outs.append(("Tag.get_html_string", objs[0].get_html_string(case["indent"], case["eol"])))
         outs.append(("str(tag)", str(objs[0])))
@@ -333,7 +346,11 @@ def body_verbatim(case, note):
     o0 = [b0.node(r) for r in case["roots"]]
     o1 = [b1.node(r) for r in case["roots"]]
     slots = b1.slots
-    if case.get("prior"):
+    if case.get("prior") == "failed":
+        from hv.history import failed_operations
+
+        failed_operations(case["indent"], case["eol"], key=case["roots"])
+    if case.get("prior") is True:
         # history: the same characters were rendered earlier in this process as *plain* text / attribute values
         import htmltools as h
 
@@ -343,11 +360,14 @@ def body_verbatim(case, note):
     for (label, r0), (_, r1) in zip(_renders(o0, case), _renders(o1, case)):
         found = [int(m.group(1)) for m in PH_RE.finditer(r0)]
         if label.startswith("TagList") or label.startswith("HTMLDocument") or label.startswith("save_html"):
-            check(sorted(found) == list(range(len(slots))), f"{label}: a trusted slot was dropped or duplicated", found, r0)
+            want_idx = [i for i in range(len(slots)) if (b0.slot_kinds[i] == "dephead") == label.startswith(("HTMLDocument", "save_html"))] if not label.startswith(("HTMLDocument", "save_html")) else list(range(len(slots)))
+            check(sorted(found) == want_idx, f"{label}: a trusted slot was dropped or duplicated", found, r0)
+        if label.startswith("HTMLTextDocument"):
+            check(sorted(found) == [i for i in range(len(slots)) if b0.slot_kinds[i] == "dephead"], f"{label}: dependency head markup dropped or duplicated", found, r0)
         exp = PH_RE.sub(lambda m: slots[int(m.group(1))], r0)
         check(r1 == exp, f"{label}: trusted markup is not emitted byte-for-byte", exp, r1)
     nontriv = any((META | set("\n\r\"'")) & set(m) for m in slots) and len(slots) >= 2
-    note(nontriv, *["slot:" + k for k in sorted(b1.kinds)], "prior-plain-render" if case.get("prior") else "", "long-markup" if any(len(m) >= 64 for m in slots) else "")
+    note(nontriv, *["slot:" + k for k in sorted(b1.kinds)], "prior-plain-render" if case.get("prior") is True else "", "earlier-operations-raised" if case.get("prior") == "failed" else "", "long-markup" if any(len(m) >= 64 for m in slots) else "")
 
 
 def selftest():
@@ -366,11 +386,11 @@ CLAUSES = [
     Clause(
         "algebra",
         body_algebra,
-        strategy=lambda: st.fixed_dictionaries({"expr": exprs()}),
+        strategy=lambda: st.fixed_dictionaries({"expr": exprs(), "prior_failed": st.sampled_from([False, False, True])}),
         quick=1000,
         thorough=20000,
         shards_quick=3,
-        required=("number", "iadd", "reflected", "all-plain"),
+        required=("number", "iadd", "reflected", "all-plain", "earlier-operations-raised"),
         rule="see RULE",
     ),
     Clause(
@@ -380,7 +400,7 @@ CLAUSES = [
         quick=600,
         thorough=15000,
         shards_quick=4,
-        required=("slot:html", "slot:repr", "slot:rawtext", "slot:rawhtml", "slot:attr", "slot:attr-merge", "prior-plain-render", "long-markup", "slot:late-append", "slot:late-insert", "slot:via-consolidate", "slot:repr-iter", "slot:post-add_class", "slot:post-add_style"),
+        required=("slot:html", "slot:repr", "slot:rawtext", "slot:rawhtml", "slot:attr", "slot:attr-merge", "prior-plain-render", "long-markup", "slot:late-append", "slot:late-insert", "slot:via-consolidate", "slot:repr-iter", "slot:post-add_class", "slot:post-add_style", "slot:dephead", "earlier-operations-raised"),
         rule="see RULE",
     ),
 ]
